@@ -270,6 +270,20 @@ func oracleC09(c *HCase) (f *ev.Failure, st hstats) {
 	return nil, st
 }
 
+// msgMapTypes: the types that have a map field with message values.
+func msgMapTypes(ts []*MsgType) []*MsgType {
+	var out []*MsgType
+	for _, mt := range ts {
+		for i := 0; i < mt.Desc.Fields().Len(); i++ {
+			if fd := mt.Desc.Fields().Get(i); fd.IsMap() && fd.MapValue().Message() != nil {
+				out = append(out, mt)
+				break
+			}
+		}
+	}
+	return out
+}
+
 // truncateInPlace sets the Go slice behind repeated field num to a non-nil slice of length 0 (keeping its backing
 // array when it has one); reports whether the field was found.
 func truncateInPlace(m any, num int) bool {
@@ -373,9 +387,26 @@ func TestC09Race(t *testing.T) {
 	ev.Rapid(t, ev.N(600, 12000), 99, func(rt *rapid.T) {
 		variant := rapid.SampledFrom(variants).Draw(rt, "variant")
 		mt := rapid.SampledFrom(byVariant[variant]).Draw(rt, "type")
+		if withMsgMap := msgMapTypes(byVariant[variant]); len(withMsgMap) > 0 && rapid.IntRange(0, 3).Draw(rt, "msgmap") == 0 {
+			mt = rapid.SampledFrom(withMsgMap).Draw(rt, "msgmaptype") // a type with a map of messages (nil values possible)
+		}
 		rec.Class("variant/" + variant)
-		_, b := canon(genDyn(rt, mt.Desc, 2, genOpts{runtime: mt.Info.Runtime, requiredProb: 10, maxMap: 1}))
-		c := &GCase{Type: mt.Key(), Value: b, NilMapValue: rapid.IntRange(0, 2).Draw(rt, "nilmapvalue") == 0}
+		dv := genDyn(rt, mt.Desc, 2, genOpts{runtime: mt.Info.Runtime, requiredProb: 10, maxMap: 3})
+		nilValue := rapid.IntRange(0, 2).Draw(rt, "nilmapvalue") == 0
+		if nilValue {
+			// make sure the maps of messages are not empty
+			for i := 0; i < mt.Desc.Fields().Len(); i++ {
+				if fd := mt.Desc.Fields().Get(i); fd.IsMap() && fd.MapValue().Message() != nil && !dv.Has(fd) {
+					mp := dv.NewField(fd).Map()
+					sub := dynamicpb.NewMessage(fd.MapValue().Message())
+					fillRequired(sub, 1)
+					mp.Set(boundaryScalars(fd.MapKey().Kind())[1].MapKey(), protoreflect.ValueOfMessage(sub))
+					dv.Set(fd, protoreflect.ValueOfMap(mp))
+				}
+			}
+		}
+		_, b := canon(dv)
+		c := &GCase{Type: mt.Key(), Value: b, NilMapValue: nilValue}
 		n := rapid.SampledFrom([]int{2, 8, 32}).Draw(rt, "goroutines")
 		iters := rapid.IntRange(1, 20).Draw(rt, "iters")
 		rec.Journal("racecase", c)
